@@ -20,7 +20,7 @@ INSTR_GATE = {"files": {"session.go": {"funcs": ["Session.Close"], "noLock": ["S
                         "queue.go": {"funcs": ["queue.put"]}}}
 GATED = ('open-in-close-window', 'flush-races-unmap')      # witnesses that need the instrumented build
 SLUGS = ['no-close-callback-when-busy', 'open-nil-nil', 'flush-nil-after-close', 'write-after-teardown-faults',
-         'stream-op-races-unmap']
+         'stream-op-races-unmap', 'accept-after-close']
 
 INTERNAL = {'ExitSetErr', 'CloseCAS', 'CloseErr', 'CloseNotify', 'CloseChan', 'ClosePost', 'DeferredClose', 'LNext', 'TdConn',
             'TdTable', 'TdStream', 'TdWait', 'TdBm', 'TdQueue', 'SendPut'}
@@ -257,13 +257,16 @@ WITNESS = {
     # a Flush that has passed its state check is parked inside queue.put while Close + teardown unmap the queue (child process)
     'stream-op-races-unmap': dict(streams=1, cb=[], gate='flush-races-unmap', steps=[]),
     'open-nil-nil': dict(streams=1, cb=[], gate='open-in-close-window', steps=[]),
+    # a stream of the client is still queued in acceptCh when the session is closed: AcceptStream afterwards may return it
+    'accept-after-close': dict(streams=1, cb=[], role='server', steps=[('PeerOpenNew', 0, ''), ('Events', 0, ''), ('CloseCall', 0, 'c1'),
+                                                                        ('Lambdas', 0, ''), ('Lambdas', 0, '')]),
 }
 
 
 def witness_schedules():
     out = []
     for slug, wit in WITNESS.items():
-        out.append({'name': 'witness-' + slug, 'role': 'server' if slug == 'no-close-callback-when-busy' else 'client', 'mem': 'file',
+        out.append({'name': 'witness-' + slug, 'role': wit.get('role') or ('server' if slug == 'no-close-callback-when-busy' else 'client'), 'mem': 'file',
                     'streams': wit['streams'], 'cb': wit['cb'], 'gate': wit.get('gate', ''), 'raw': True,
                     'steps': [{'a': a, 's': s, 't': t} for a, s, t in wit['steps']]})
     return out
